@@ -55,6 +55,7 @@ Definition table_math (tbl : list gentry) : PoolMath := {|
 Record gcase := mkGCase {
   gc_fees : list Z;               (* ND x ND taker fees *)
   gc_wl : list Z;                 (* actors on the reduced-taker-fee whitelist *)
+  gc_skim : list Z;               (* per denom: skim percent of its taker-fee share agreement, -1 = none *)
   gc_exempt : list Z;             (* actors exempt from the pool creation fee *)
   gc_cfee : list Z;               (* pool creation fee per ordinary denom *)
   gc_bal0 : list (list Z);        (* rows: actors 0..2, pool slots 0..3, collector, community; columns: 6 denoms + 4 share denoms *)
@@ -90,7 +91,8 @@ Definition init_gstate (c : gcase) : gstate (table_math (gc_tbl c)) :=
   mkG (table_math (gc_tbl c))
       (@mkState (GP (table_math (gc_tbl c))) [] (init_bank c)
                 (fun a b => nthz (gc_fees c) (a * ND + b) 0)
-                (fun a => match a with Trader n => mem (gc_wl c) n | _ => false end))
+                (fun a => match a with Trader n => mem (gc_wl c) n | _ => false end)
+                (fun d => let v := nthz (gc_skim c) d (-1) in if v <? 0 then None else Some v))
       (fun d => if (0 <=? col_of d) && (col_of d <? ND + NPOOL) then nthz (gc_sup0 c) (col_of d) 0 else 0)
       1
       (fun _ _ => 0)
@@ -102,7 +104,7 @@ Definition stamp (i : Z) (p : gpool) : gpool :=
   mkGP (gp_id p) (gp_liq p) (gp_shares p) (gp_spread p) (gp_exit_fee p) (gp_ext p) (i, 0).
 Definition stamp_state {M} (i : Z) (s : gstate M) : gstate M :=
   with_rs M s (@mkState (GP M) (map (fun kp => (fst kp, stamp i (snd kp))) (pools (rs M s))) (bal (rs M s)) (taker_fee (rs M s))
-                       (whitelisted (rs M s))).
+                       (whitelisted (rs M s)) (skim (rs M s))).
 
 Definition code (e : err) : Z := match e with ELimit => 1 | _ => 2 end.
 Definition flat_res (r : result Z) : list Z := match r with Ok v => [0; v] | Err e => [code e; 0] end.
